@@ -1,6 +1,7 @@
 package gen
 
 import (
+	"fmt"
 	"math/big"
 
 	"pgregory.net/rapid"
@@ -30,7 +31,7 @@ type PointCase struct {
 
 // Point draws a curve point (identity included) from the mixture.
 func Point(t *rapid.T, label string) PointCase {
-	strat := rapid.SampledFrom([]string{"kG", "kG", "lift", "small-x", "x>=n", "small-y", "identity", "lambda"}).Draw(t, label+"_pstrat")
+	strat := Sampled([]string{"kG", "kG", "lift", "small-x", "x>=n", "small-y", "identity", "lambda"}).Draw(t, label+"_pstrat")
 	odd := rapid.Bool().Draw(t, label+"_odd")
 	switch strat {
 	case "kG":
@@ -94,7 +95,48 @@ const (
 	RelBothInf     = "P=Q=O"
 	RelLambda      = "Q=lambda*P"
 	RelCollinear   = "Q on a small-slope line through P"
+	RelSteered     = "Q solved so that an intermediate of the addition formulas is a hostile value"
 )
+
+// Steered solves for a second point Q such that one of the quantities the
+// complete addition formulas compute from affine inputs -- x1+x2 (the value
+// multiplied by 3b), y1+y2, x1*x2, y1*y2 -- equals (or, when that is not a
+// coordinate of a curve point, comes within a few units of) the target T.
+func Steered(t *rapid.T, p ref.Pt, label string) (ref.Pt, string, bool) {
+	if p.Inf || p.X.Sign() == 0 || p.Y.Sign() == 0 {
+		return ref.Pt{}, "", false
+	}
+	kind := Sampled([]string{"x-sum", "x-sum", "x-sum", "y-sum", "x-prod", "y-prod"}).Draw(t, label+"_what")
+	var T *big.Int
+	if rapid.Bool().Draw(t, label+"_frac") {
+		T = FracEdge(t, ref.P, label+"_T")
+	} else {
+		T = Int256(t, ref.P, label+"_T")
+	}
+	for i := 0; i < 200; i++ {
+		var q ref.Pt
+		ok := false
+		switch kind {
+		case "x-sum":
+			q, ok = ref.LiftX(ref.SubM(T, p.X, ref.P), rapid.Bool().Draw(t, label+"_odd"))
+		case "x-prod":
+			q, ok = ref.LiftX(ref.MulM(T, ref.Inv0(p.X, ref.P), ref.P), rapid.Bool().Draw(t, label+"_odd"))
+		default:
+			y2 := ref.SubM(T, p.Y, ref.P)
+			if kind == "y-prod" {
+				y2 = ref.MulM(T, ref.Inv0(p.Y, ref.P), ref.P)
+			}
+			if roots := ref.CbrtP(ref.SubM(ref.MulM(y2, y2, ref.P), big.NewInt(7), ref.P)); len(roots) > 0 {
+				q, ok = ref.Pt{X: roots[0], Y: y2}, true
+			}
+		}
+		if ok && q.Valid() && !q.Inf {
+			return q, kind, true
+		}
+		T = ref.AddM(T, one, ref.P)
+	}
+	return ref.Pt{}, "", false
+}
 
 // Collinear returns another curve point on the line of slope m through p
 // (so P != Q but m*x - y agrees: m = -1 gives x1+y1 = x2+y2, m = 1 gives
@@ -127,8 +169,8 @@ func Collinear(p ref.Pt, m *big.Int) (ref.Pt, bool) {
 func PointPair(t *rapid.T, label string) (p, q ref.Pt, rel string) {
 	pc := Point(t, label+"_P")
 	p = pc.P
-	rel = rapid.SampledFrom([]string{RelIndependent, RelIndependent, RelEqual, RelNeg, RelDouble, RelPlusG, RelMinusG,
-		RelQInf, RelPInf, RelBothInf, RelLambda, RelCollinear}).Draw(t, label+"_rel")
+	rel = Sampled([]string{RelIndependent, RelIndependent, RelEqual, RelNeg, RelDouble, RelPlusG, RelMinusG,
+		RelQInf, RelPInf, RelBothInf, RelLambda, RelCollinear, RelSteered, RelSteered}).Draw(t, label+"_rel")
 	switch rel {
 	case RelEqual:
 		q = p
@@ -151,6 +193,12 @@ func PointPair(t *rapid.T, label string) (p, q ref.Pt, rel string) {
 			q = p
 		} else {
 			q = ref.Pt{X: ref.MulM(p.X, ref.Beta, ref.P), Y: new(big.Int).Set(p.Y)}
+		}
+	case RelSteered:
+		var ok bool
+		if q, _, ok = Steered(t, p, label+"_st"); !ok {
+			rel = RelIndependent
+			q = Point(t, label+"_Q").P
 		}
 	case RelCollinear:
 		slopes := []int64{-1, 1, 2, -2, 3, -3, 5, 7, 11, 13}
@@ -194,5 +242,51 @@ func SmallYPoint(t *rapid.T, label string) PointCase {
 			x := roots[rapid.IntRange(0, len(roots)-1).Draw(t, label+"_root")]
 			return PointCase{ref.Pt{X: x, Y: ref.Mod(y, ref.P)}, "small-y"}
 		}
+	}
+}
+
+// NearCurve returns canonical coordinates (x, y) that satisfy
+// y^2 = x^3 + 7 + d for a small hostile offset d != 0 (so the point is OFF
+// the curve): d = +-1, +-2^k, or an offset that changes exactly one 64-bit
+// limb of the Montgomery representation (c * 2^(64*j) / R mod p).  It is the
+// hostile input for an on-curve check whose final comparison looks at fewer
+// bits than it should.
+func NearCurve(t *rapid.T, label string) (x, y *big.Int, kind string) {
+	kind = Sampled([]string{"+1", "-1", "2^k", "mont-limb", "mont-limb", "mont-limb"}).Draw(t, label+"_dkind")
+	d := new(big.Int)
+	switch kind {
+	case "+1":
+		d.SetInt64(1)
+	case "-1":
+		d.SetInt64(-1)
+	case "2^k":
+		d.Lsh(one, uint(rapid.IntRange(1, 255).Draw(t, label+"_k")))
+	default:
+		j := rapid.IntRange(0, 3).Draw(t, label+"_limb")
+		c := Sampled([]uint64{1, 1, 2, 1 << 32, 1 << 63, ^uint64(0)}).Draw(t, label+"_coef")
+		raw := new(big.Int).Lsh(new(big.Int).SetUint64(c), uint(64*j)) // difference of the internal representations
+		d = ref.FromM(raw, ref.P)
+		kind = fmt.Sprintf("mont-limb%d", j)
+	}
+	if rapid.Bool().Draw(t, label+"_dneg") {
+		d.Neg(d)
+	}
+	d.Mod(d, ref.P)
+	if d.Sign() == 0 {
+		d.SetInt64(1)
+	}
+	x = Int256(t, ref.P, label+"_x")
+	for {
+		rhs := ref.AddM(ref.RHS(x), d, ref.P)
+		if r, ok := ref.SqrtP(rhs); ok {
+			y = r
+			if rapid.Bool().Draw(t, label+"_yneg") {
+				y = ref.NegM(y, ref.P)
+			}
+			if !ref.OnCurve(x, y) {
+				return x, y, kind
+			}
+		}
+		x = ref.AddM(x, one, ref.P)
 	}
 }
